@@ -49,11 +49,14 @@ type kProcPlan struct {
 	Attempts  int
 	// the n-th lock-file Remove of this process is applied but reported as failed (0 = none)
 	RemoveLostOn int
+	// standby of the whole process (timers, goroutines, monotonic clock), measured from the start of the run
+	StandbyAt  time.Duration
+	StandbyFor time.Duration
 }
 
 func (p kProcPlan) String() string {
-	return fmt.Sprintf("{off=%v host=%s start=%v excl=%v retry=%v hold=%v work=%v end=%s janitor=%v stall=%d:%v outage=%v+%v attempts=%d remove-lost=%d}",
-		p.Offset, p.Host, p.Start, p.Excl, p.Retry, p.Hold, p.WorkEvery, p.End, p.Janitor, p.StallOn, p.Stall, p.OutageAt, p.OutageFor, p.Attempts, p.RemoveLostOn)
+	return fmt.Sprintf("{off=%v host=%s start=%v excl=%v retry=%v hold=%v work=%v end=%s janitor=%v stall=%d:%v outage=%v+%v attempts=%d remove-lost=%d standby=%v+%v}",
+		p.Offset, p.Host, p.Start, p.Excl, p.Retry, p.Hold, p.WorkEvery, p.End, p.Janitor, p.StallOn, p.Stall, p.OutageAt, p.OutageFor, p.Attempts, p.RemoveLostOn, p.StandbyAt, p.StandbyFor)
 }
 
 func genLockPlans(tp *simrt.Tape) []kProcPlan {
@@ -101,6 +104,29 @@ func genLockPlans(tp *simrt.Tape) []kProcPlan {
 			p.OutageFor = 60 * time.Minute
 			p.Hold = 50 * time.Minute
 		}
+	}
+	if tp.Choose(4) == 3 {
+		// biased scenario: the holder's machine goes to standby for longer than the stale timeout; a
+		// contender on another machine removes the stale lock and locks exclusively; the holder wakes up
+		h := &plans[0]
+		*h = kProcPlan{Host: "hostA", Attempts: 1, End: "unlock", Hold: 90 * time.Minute, Excl: tp.Choose(2) == 0}
+		h.Offset = time.Duration(tp.Choose(3)-1) * time.Minute
+		h.WorkEvery = []time.Duration{20 * time.Second, 1 * time.Minute, 4 * time.Minute}[tp.Choose(3)]
+		// the refresh ticker (5 min) and the monitor's poll ticker (1 s) tick together at every multiple of
+		// 5 min of the process's own time: going to standby just before one of them makes both due at wake-up
+		h.StandbyAt = time.Duration(1+tp.Choose(3))*5*time.Minute - []time.Duration{500 * time.Millisecond, 200 * time.Second, 2 * time.Second}[tp.Choose(3)]
+		h.StandbyFor = time.Duration(31+tp.Choose(20)) * time.Minute
+		c := &plans[1]
+		*c = kProcPlan{Host: "hostB", Attempts: 2, End: "unlock", Excl: true, Janitor: true, Retry: 0}
+		c.Offset = time.Duration(tp.Choose(3)-1) * time.Minute
+		c.Start = h.StandbyAt + time.Duration(31+tp.Choose(3))*time.Minute + 30*time.Second
+		c.Hold = []time.Duration{6 * time.Minute, 26 * time.Minute}[tp.Choose(2)]
+		c.WorkEvery = 1 * time.Minute
+		for i := 2; i < len(plans); i++ {
+			plans[i].Start = 200 * time.Minute // out of the way
+			plans[i].Janitor = false
+		}
+		return plans
 	}
 	if tp.Choose(2) == 1 {
 		// biased scenario: a holder whose lock file is older than its own countdown
@@ -220,9 +246,10 @@ func runLocks(r *hx.Rec, property string) {
 		for i, pl := range plans {
 			p := s.NewProc(fmt.Sprintf("p%d", i+1), 2000+i, pl.Host)
 			p.ClockOffset = pl.Offset
+			p.SuspendAt, p.SuspendFor = pl.StandbyAt, pl.StandbyFor
 			cl := store.NewClient(p, 4, true)
 			ps := &pstate{plan: pl, proc: p, cl: cl}
-			ps.faulty = pl.StallOn != 0 || pl.OutageAt != 0 || pl.End == "crash" || pl.RemoveLostOn != 0
+			ps.faulty = pl.StallOn != 0 || pl.OutageAt != 0 || pl.End == "crash" || pl.RemoveLostOn != 0 || pl.StandbyFor != 0
 			procs[i] = ps
 			byPID[p.PID] = ps
 			lockSaves := 0
@@ -253,6 +280,16 @@ func runLocks(r *hx.Rec, property string) {
 			}
 		}
 
+		// a process in standby cannot act; after waking up it gets a moment to find out what happened
+		// (its expiry monitor polls once per second)
+		const wakeUpGrace = 10 * time.Second
+		inStandby := func(ps *pstate) bool {
+			if ps.plan.StandbyFor == 0 {
+				return false
+			}
+			el := s.Elapsed()
+			return el >= ps.plan.StandbyAt && el < ps.plan.StandbyAt+ps.plan.StandbyFor+wakeUpGrace
+		}
 		staleFor := func(holder *pstate, li lockInfo) (bool, string) {
 			now := time.Now()
 			for _, o := range procs {
@@ -342,7 +379,7 @@ func runLocks(r *hx.Rec, property string) {
 			r.Count("work_ops", 1)
 			// (b) a repository modification starts: the holder's newest lock file must not be
 			// judged stale yet by any other process within the assumed clock bound
-			if li, ok := newest(holder); ok {
+			if li, ok := newest(holder); ok && !inStandby(holder) {
 				if stale, who := staleFor(holder, li); stale {
 					sig := "modification-after-stale"
 					if holder.cl.InFlightLock > 0 {
@@ -363,11 +400,11 @@ func runLocks(r *hx.Rec, property string) {
 			defer mu.Unlock()
 			// C12: conflicting beliefs
 			for i, p := range procs {
-				if !p.belief.active || p.belief.ctx.Err() != nil || p.cl.Dead {
+				if !p.belief.active || p.belief.ctx.Err() != nil || p.cl.Dead || inStandby(p) {
 					continue
 				}
 				for _, q := range procs[i+1:] {
-					if !q.belief.active || q.belief.ctx.Err() != nil || q.cl.Dead {
+					if !q.belief.active || q.belief.ctx.Err() != nil || q.cl.Dead || inStandby(q) {
 						continue
 					}
 					if p.belief.excl || q.belief.excl {
